@@ -225,7 +225,7 @@ theorem send_rb_op (r : RunSt) (payload : Bytes) (hg : C03.Good r.st) (hz : Z r.
       · rename_i hne _
         obtain ⟨hzz, hok, hhang, hnt, hnfuel, _⟩ := sendLoop_rb (payload.length + 1) payload false (C03.cut r.st).now (C03.cut r.st)
           (by omega) hz hg.cut.wf hg.cut.chunk hg.cut.slice hg.cut.slow
-        obtain ⟨recs, ws, _, _, _, _, _, herr⟩ := C03.sendLoop_spec (payload.length + 1) payload true none false
+        obtain ⟨recs, ws, _, _, _, _, _, herr, _⟩ := C03.sendLoop_spec (payload.length + 1) payload true none false
           (C03.cut r.st).now (C03.cut r.st) (by omega) hg.cut.slice hg.cut.wf hg.cut.chunk hg.cut.slow
         cases hsl : sendLoop (payload.length + 1) payload true none false (C03.cut r.st).now (C03.cut r.st) with
         | mk res s' =>
